@@ -360,6 +360,14 @@ def inventory_and_impls():
                     forms.append(("static", f"Array::{name}({args})"))
                     if len(params) == 1: forms.append(("static", f"{params[0][0]}.{name}()"))
                 kind = next((k for k, f in forms if f.replace(" ", "") == body_n), "other")
+                if kind == "other" and has_self:
+                    # equivalent spellings of the pure delegation: an explicit match on the receiver, or `and_then`
+                    a_ = re.escape(args.replace(" ", ""))
+                    n_ = re.escape(name)
+                    pats = [r"matchself\{Ok\((\w+)\)=>\1\." + n_ + r"\(" + a_ + r"\),Err\((\w+)\)=>Err\(\2\.clone\(\)\),?\}",
+                            r"match\*?self\{Err\((\w+)\)=>Err\(\1\.clone\(\)\),Ok\((\w+)\)=>\2\." + n_ + r"\(" + a_ + r"\),?\}",
+                            r"self\.clone\(\)\.and_then\(\|(\w+)\|\1\." + n_ + r"\(" + a_ + r"\)\)"]
+                    if any(re.fullmatch(pt, body_n) for pt in pats): kind = "delegation"
                 impls.append((trait, name, has_self, kind, p))
     if not methods: refuse(SRC, "no public trait found")
     if not impls: refuse(SRC, "no `impl … for Result<Array<_>, ArrayError>` found")
